@@ -7,6 +7,7 @@ for d in seeded/*/; do
   id=$(basename "$d")
   [ -f "$d/meta.json" ] || continue
   grep -q '"detected_by": "obsolete"' "$d/meta.json" && { echo "SWEEP $id obsolete"; continue; }
+  grep -q '"detected_by": "not judged' "$d/meta.json" && { echo "SWEEP $id not-judged (stated limitation)"; continue; }
   if grep -q '"detected_by": "not detected' "$d/meta.json"; then
     # a change that does NOT break the property as stated (kept as a negative example): the check must stay quiet
     prop=$(python3 -c "import json;print(json.load(open('$d/meta.json'))['breaks_property'])")
